@@ -72,22 +72,34 @@ def main():
         expect("MC_System without bug switches: all properties hold", r.ok)
         # (c) seeded changes
         if "--seeds" in sys.argv:
-            for d in sorted(glob.glob(os.path.join(VERIF, "seeded", "*"))):
+            # every filed seeded change is re-applied to a scratch copy of the working tree and must be caught again by the checks that
+            # caught it when it was filed; VERIF_SEEDS (a regular expression on the seed's name) selects a subset; four at a time
+            import re as _re
+            from concurrent.futures import ThreadPoolExecutor
+            want = _re.compile(os.environ.get("VERIF_SEEDS", "."))
+
+            def one(d):
+                out = []
                 meta = json.load(open(os.path.join(d, "meta.json")))
                 tmp = tempfile.mkdtemp(prefix="selftest-seed-")
                 try:
                     shutil.copytree(os.path.join(REPO, "cvss"), os.path.join(tmp, "cvss"))
                     p = subprocess.run(["patch", "-p1", "-s", "-i", os.path.join(d, "patch.diff")], cwd=tmp, stdout=subprocess.PIPE, stderr=subprocess.STDOUT)
                     if p.returncode != 0:
-                        expect("seed %s applies" % os.path.basename(d), False, p.stdout.decode()[-200:])
-                        continue
+                        return [("seed %s applies" % os.path.basename(d), False, p.stdout.decode()[-200:])]
                     for prop, res in sorted(meta["checks_run"].items()):
                         if not res.get("caught"):
                             continue
                         r = subprocess.run([os.path.join(VERIF, "check"), prop, "--tier", "quick"], env=dict(os.environ, CVSS_REPO=tmp), stdout=subprocess.PIPE, stderr=subprocess.STDOUT)
-                        expect("seed %s is caught by %s" % (os.path.basename(d), prop), r.returncode == 1 and b"VIOLATION property=" + prop.encode() in r.stdout)
+                        out.append(("seed %s is caught by %s" % (os.path.basename(d), prop), r.returncode == 1 and b"VIOLATION property=" + prop.encode() in r.stdout, ""))
                 finally:
                     shutil.rmtree(tmp, ignore_errors=True)
+                return out
+            dirs = [d for d in sorted(glob.glob(os.path.join(VERIF, "seeded", "*"))) if want.search(os.path.basename(d))]
+            with ThreadPoolExecutor(max_workers=int(os.environ.get("VERIF_SEEDS_PARALLEL", "4"))) as ex:
+                for res in ex.map(one, dirs):
+                    for what, good, detail in res:
+                        expect(what, good, detail) if detail else expect(what, good)
     finally:
         rm(work)
     print("selftest: %s" % ("ok" if ok else "FAILED"))
